@@ -15,6 +15,7 @@ from dep_logic.markers.any import AnyMarker
 from dep_logic.markers.base import BaseMarker, EvaluationContext
 from dep_logic.markers.empty import EmptyMarker
 from dep_logic.specifiers import BaseSpecifier
+from dep_logic.specifiers.base import InvalidSpecifier as InvalidVersionSpecifier
 from dep_logic.specifiers.base import VersionSpecifier
 from dep_logic.specifiers.generic import GenericSpecifier
 from dep_logic.utils import DATACLASS_ARGS, OrderedSet, get_reflect_op, normalize_name
@@ -416,6 +417,10 @@ def _merge_single_markers(
             result_specifier = marker1.specifier & marker2.specifier
         else:
             result_specifier = marker1.specifier | marker2.specifier
+    except InvalidVersionSpecifier:
+        # a literal that is not a version (platform_release == "4.9.253-tegra") has no
+        # specifier view: leave the two atoms alone
+        return None
     except NotImplementedError:
         if marker1.op == marker2.op == "==" and merge_class is MarkerUnion:
             return EqualityMarkerUnion(
